@@ -569,6 +569,11 @@ def run_file(res, origin, raw, desc, rng, per_file):
         try:
             e.apply(o)
         except Exception as ex:
+            if e.coupled and e.path.endswith("/controllers/value") and type(ex).__name__ == "ControllerValueError":
+                # a generated MultiCtl carries arbitrary 32-bit mapping windows (legal file content); fanning a value out
+                # through such a window overshoots the target, which is C20's domain (windows 0..32768 / the target's span)
+                res.count("multictl_fanout_outside_window_domain")
+                continue
             res.violation(f"C06:edit-raises:{snapshot.field_key(e.path)}:{type(ex).__name__}", f"{origin}: editing {e.path} to {e.value!r} raised {ex!r}", case)
             continue
         # Half of the cases save FIRST and look at the object afterwards: reading the object before the save
